@@ -38,12 +38,16 @@ def _written_set(it, target):
     """The FilterSet that `target.apply_to` / `target.skip_for` write into (both must agree), or None when not attached."""
     out = []
     for attr in ("apply_to", "skip_for"):
-        proxy = target.attrs.get(attr)
+        proxy = (target.attr_cache if hasattr(target, "attr_cache") else target.attrs).get(attr)  # (a function's attribute, or a class attribute for the requests-auth form)
         if proxy is None:
             return None
         inner = _cell(proxy, "filter_func")  # include / exclude closure of init_filter_set (or a bound FilterSet method)
         from pyvc.values import VBound
 
+        # `apply_to` adds an INCLUDE filter, `skip_for` an EXCLUDE filter (the documented meaning of the two chains)
+        fn = inner.func if isinstance(inner, VBound) else inner
+        if getattr(getattr(fn, "node", None), "name", None) != {"apply_to": "include", "skip_for": "exclude"}[attr]:
+            return None
         if isinstance(inner, VBound):
             out.append(inner.self_obj)
         else:
@@ -59,7 +63,7 @@ def _filter_used(it, register):
     return _cell(register, "filter_used")
 
 
-R.spec_funcs.update({"written_set": _written_set, "current_set": _current_set, "filter_used": _filter_used})
+R.spec_funcs.update({"written_set": _written_set, "current_set": _current_set, "filter_used": _filter_used, "cell": lambda it, fn, name: _cell(fn, name)})
 
 R.opaque_classes["Dispatcher"] = H + "HookDispatcher"
 FS = lambda: Obj(F + "FilterSet", _includes=Seq(Opq("Filter"), kind="set"), _excludes=Seq(Opq("Filter"), kind="set"))
@@ -394,3 +398,112 @@ R.contract(
     },
     replayable=False,
 )
+
+
+# ------------------------------------------------------------------------------------------------- auth registration forms: the filters chained on the decorator are the provider's own
+# (`@schema.auth().apply_to(...)`, `@schema.auth(Provider).skip_for(...)` on a test, `schema.auth.set_from_requests(...).apply_to(...)`: "independent of decorator form")
+R.contract(AU + "AuthStorage._set_provider", args={"self": Opq("Any"), "provider_class": Opq("Any"), "refresh_interval": Opq("Any"), "filter_set": Opq("Any"), "cache_by_key": Opq("Any")}, returns=NoneT,
+           raises=["TypeError"], trusted=True, effects={"given_set": "filter_set", "given_to": "self", "set_calls": "ghost('set_calls') + 1"}, note="own contract below (#storing)")
+ProviderClass = Opq("ProviderClass")
+for _form in ("register", "apply"):
+    R.contract(
+        AU + "AuthStorage." + _form,
+        prop="C19",
+        args=({"self": Obj(AU + "AuthStorage", providers=Seq(Opq("EarlierProvider"))), "refresh_interval": OneOf(NoneT, Int), "cache_by_key": NoneT} if _form == "register" else
+              {"self": Obj(AU + "AuthStorage", providers=Seq(Opq("EarlierProvider"))), "provider_class": ProviderClass, "refresh_interval": OneOf(NoneT, Int), "cache_by_key": NoneT}),
+        raises=[],
+        ensures={
+            # apply_to adds include filters and skip_for exclude filters, both to ONE fresh set: the one the provider will be registered with
+            "both_chains_write_into_the_set_the_provider_gets": "written_set(result) is not None and written_set(result) is cell(result, 'filter_set')",
+            "starts_without_filters": "length(cell(result, 'filter_set')._includes) == 0 and length(cell(result, 'filter_set')._excludes) == 0",
+            "nothing_registered_yet": "length(self.providers) == old(length(self.providers))",
+        },
+        replayable=False,
+    )
+
+
+def _wrapper_setup(form):
+    def setup(it):
+        from pyvc.verify import locate
+        from pyvc.contracts import fresh_opaque
+        from pyvc.values import VObj
+
+        _, _, outer = locate(it, AU + "AuthStorage." + form)
+        storage = VObj(it.resolve_class(AU + "AuthStorage"), {"providers": []})
+        saved = it.top_target
+        it.top_target = AU + "AuthStorage." + form
+        try:
+            kw = {"refresh_interval": None, "cache_by_key": None}
+            if form == "apply":
+                kw["provider_class"] = fresh_opaque(it, "ProviderClass")
+            wrapper = it.call_function(outer, [storage], kw)
+        finally:
+            it.top_target = saved
+        it.ghost["wrapper"] = wrapper
+        it.ghost["storage"] = storage
+        return wrapper, {}
+
+    return setup
+
+
+R.contract("schemathesis.core.marks:Mark.is_set", args={"self": Opq("Any"), "obj": Opq("Any")}, returns=Bool, trusted=True, note="whether the test function already carries an auth storage")
+R.contract("schemathesis.core.marks:Mark.set", args={"self": Opq("Any"), "obj": Opq("Any"), "value": Opq("Any")}, returns=NoneT, trusted=True, effects={"marked_with": "value"}, note="stores the storage on the test function")
+R.contract(
+    AU + "AuthStorage.register.<locals>.wrapper",
+    prop="C19",
+    setup=_wrapper_setup("register"),
+    args={"provider_class": ProviderClass},
+    ghost={"wrapper": None, "storage": None, "given_set": None, "given_to": None, "set_calls": 0},
+    raises=["TypeError"],
+    ensures={
+        "provider_registered_with_the_chained_filters": "ghost('set_calls') == 1 and ghost('given_set') is written_set(ghost('wrapper')) and ghost('given_to') is ghost('storage')",
+    },
+    replayable=False,
+)
+R.contract(
+    AU + "AuthStorage.apply.<locals>.wrapper",
+    prop="C19",
+    setup=_wrapper_setup("apply"),
+    args={"test": Obj("spec:UserFunction", __name__=Const("test_api"))},
+    ghost={"wrapper": None, "storage": None, "given_set": None, "given_to": None, "set_calls": 0, "marked_with": None},
+    raises=["TypeError", "IncorrectUsage"],
+    ensures={
+        # test scope: a storage of its own, attached to this test only, holding the provider with the chained filters; the schema's storage is not touched
+        "provider_registered_with_the_chained_filters": "ghost('set_calls') == 1 and ghost('given_set') is written_set(ghost('wrapper'))",
+        "registered_at_test_scope_only": "ghost('given_to') is ghost('marked_with') and ghost('given_to') is not ghost('storage') and length(ghost('storage').providers) == 0 and result is test",
+    },
+    replayable=False,
+)
+# what _set_provider stores
+R.opaque_classes["ProviderClass"] = "spec:ProviderClass"
+R.contract("spec:ProviderClass.__name__", kind="attribute", args={"self": Opq("ProviderClass")}, returns=Str, pure=True, trusted=True, note="class name")
+R.contract("spec:ProviderClass.__call__", args={"self": Opq("ProviderClass")}, returns=Obj("spec:UserProvider"), trusted=True, note="instantiates the user's provider class")
+R.contract(
+    AU + "AuthStorage._set_provider",
+    variant="storing",
+    prop="C19",
+    args={"self": Obj(AU + "AuthStorage", providers=ListOf(Opq("EarlierProvider"), [0, 1, 2])), "provider_class": ProviderClass, "refresh_interval": NoneT, "cache_by_key": NoneT, "filter_set": FS()},
+    raises=["TypeError"],
+    ensures={
+        # a provider registered with filters is restricted by exactly THAT set; one registered without filters applies everywhere
+        "restricted_by_its_own_filters": "length(self.providers) == old(length(self.providers)) + 1 and (implies(length(filter_set._includes) + length(filter_set._excludes) > 0, "
+                                         "is_instance(self.providers[-1], 'SelectiveAuthProvider') and self.providers[-1].filter_set is filter_set))",
+        "unfiltered_provider_is_unrestricted": "implies(length(filter_set._includes) + length(filter_set._excludes) == 0, not is_instance(self.providers[-1], 'SelectiveAuthProvider'))",
+        "earlier_providers_keep_their_place": "all(self.providers[i] is old(list(self.providers))[i] for i in range(old(length(self.providers))))",
+    },
+    replayable=False,
+)
+R.contract("schemathesis.auths:RequestsAuth", abstract_only=True, args={}, returns=Opq("RequestsAuthRef"), note="dataclass constructor")
+R.contract(
+    AU + "AuthStorage.set_from_requests",
+    prop="C19",
+    args={"self": Obj(AU + "AuthStorage", providers=ListOf(Opq("EarlierProvider"), [0, 1, 2])), "auth": Opq("RequestsAuthBase")},
+    raises=[],
+    ensures={
+        "both_chains_write_into_the_providers_own_set": "length(self.providers) == old(length(self.providers)) + 1 and is_instance(self.providers[-1], 'SelectiveAuthProvider') and written_set(result) is not None and "
+                                                        "written_set(result) is self.providers[-1].filter_set",
+        "earlier_providers_keep_their_place": "all(self.providers[i] is old(list(self.providers))[i] for i in range(old(length(self.providers))))",
+    },
+    replayable=False,
+)
+
